@@ -35,8 +35,8 @@ def rule_keywords(repo: Repo) -> RuleResult:
     heads = c08.parser_heads(repo, ["ProblemParser.parse_problem", "ProblemParser.parse_goal_state", "ProblemParser.parse_state_component"])
     heads |= {"define"}
     for w in ("ProblemExporter.extract_problem", "ProblemExporter.write_objects", "ProblemExporter.write_initial_state", "ProblemExporter.write_goal_state"):
-        f = repo.func(w)
-        kw = {k for k in T.keywords(T.function_literals(f))}
+        f = L.fn(repo, w)
+        kw = {k for k in T.keywords(c08._fn_literals(repo, f))}
         r.site(f.qn)
         unknown = sorted(k for k in kw if k not in heads)
         if unknown:
@@ -48,21 +48,34 @@ def rule_keywords(repo: Repo) -> RuleResult:
 
 
 def rule_domain_name(repo: Repo) -> RuleResult:
+    from .. import strshape as S
+    from ..core import AnalysisError
     r = RuleResult("C09.domainref", "the (:domain ...) reference is the name of the problem's domain", "parsing against the same domain succeeds")
-    f = repo.func("ProblemExporter.extract_problem")
+    f = L.fn(repo, "ProblemExporter.extract_problem")
     p = L.prov(repo, f)
     r.site(f.qn)
-    ok = False
-    for js in [n for n in ast.walk(f.node) if isinstance(n, ast.JoinedStr)]:
-        prev = ""
-        for v in js.values:
-            if isinstance(v, ast.Constant):
-                prev = str(v.value)
-            elif isinstance(v, ast.FormattedValue):
-                if prev.rstrip().endswith("(:domain") and any(x == ("param:problem", "attr:domain", "attr:name") for x in p.trace(v.value)):
-                    ok = True
-                prev = ""
-    if ok:
+    ev = S.Evaluator(repo, f)
+
+    def hole(n):
+        try:
+            tr = p.trace(n)
+        except KeyError:
+            return "?"
+        if tr and all(x == ("param:problem", "attr:domain", "attr:name") for x in tr):
+            return "DOMAIN-NAME"
+        return "?"
+
+    texts = []
+    for rt in [x for x in L.func_returns(f) if x.value is not None]:
+        sh = ev.string(rt.value)
+        texts.append(S.render(sh, hole))
+    if not texts:
+        raise AnalysisError("ProblemExporter.extract_problem: no returned text found")
+    if not any("(:domain" in t for t in texts):
+        if any("{?" in t for t in texts):
+            raise AnalysisError("ProblemExporter.extract_problem: the returned text is not interpreted")
+        r.fail(Finding("C09.domainref", f, "domain-reference", "the problem text has no (:domain ...) reference"))
+    elif all(("(:domain {DOMAIN-NAME}" in t) for t in texts if "(:domain" in t):
         r.ok({"(:domain": "problem.domain.name"})
     else:
         r.fail(Finding("C09.domainref", f, "domain-reference", "the text after '(:domain' is not problem.domain.name"))
